@@ -61,7 +61,13 @@ func seqBatch(c *kit.Case, timed bool, seqs int) {
 						continue
 					}
 					ops = append(ops, "B")
-					ad.borrow(0)
+					if !borrowWatched(ad) {
+						// one goroutine, fewer than n permits out by the model, nobody else can ever
+						// return one: a Borrow parked in its channel send is blocked for good
+						fail("seq/borrow-blocked-below-cap", fmt.Sprintf("blocking Borrow is parked although only %d of %d permits are out in a sequential history - capacity was lost", held, n))
+						desync = true
+						continue
+					}
 					held++
 					continue
 				}
@@ -130,6 +136,55 @@ func seqBatch(c *kit.Case, timed bool, seqs int) {
 			c.Sample(ad.name+"-seq", 2, map[string]any{"n": n, "ops": strings.Join(ops, " "), "nontrivial": nontrivial})
 		}
 	}
+}
+
+// borrowWatched runs the blocking Borrow of a sequential history. It returns false
+// only if the call is parked in a channel send (goroutine state, consecutive dumps)
+// after a generous patience: with no other goroutine able to return a permit that
+// state is permanent. A goroutine that is merely slow keeps being waited for.
+func borrowWatched(ad limAdapter) bool {
+	done := make(chan struct{})
+	go func() {
+		defer close(done)
+		ad.borrow(0)
+	}()
+	select {
+	case <-done:
+		return true
+	case <-time.After(stuckProbeAt):
+	}
+	parked := 0
+	for {
+		select {
+		case <-done:
+			return true
+		case <-time.After(stuckEvery):
+		}
+		if goroutineParkedIn("c05.borrowWatched.func1", "chan send") {
+			parked++
+		} else {
+			parked = 0
+		}
+		if parked >= stuckSamples {
+			return false
+		}
+	}
+}
+
+// goroutineParkedIn reports whether a goroutine whose stack contains fn is in the given wait state.
+func goroutineParkedIn(fn, state string) bool {
+	for _, blk := range strings.Split(stacks(), "\n\n") {
+		if strings.Contains(blk, fn) {
+			hdr := blk
+			if i := strings.IndexByte(blk, '\n'); i >= 0 {
+				hdr = blk[:i]
+			}
+			if strings.Contains(hdr, "["+state) {
+				return true
+			}
+		}
+	}
+	return false
 }
 
 func limitSeqCase(c *kit.Case)  { seqBatch(c, false, 200) }
